@@ -9,6 +9,9 @@ CHECKS = {
  "C01": dict(level=MC, technique="TLA+ model (Engine.tla) checked by TLC; TLC-generated behaviours replayed on the real engine; recorded states validated by TLC (EngineTrace.tla)",
    text="TLC checks the C01 formulas on the lazy-graph engine specification exhaustively within bounds, exports behaviours (every graph shape within the bounds incl. self/mutually entering and terminal sub-flows, all trigger and resume kinds) that are replayed on the real engine, and evaluates the same formulas on every state recorded from the real engine (replays, the repository's runner fixtures and off-script resume histories). The spec's expected post-state is compared after each call (drift channel).",
    note="Trusted: the Go projection from public API to abstract state (harness/engine.go), TLC, gocommon's injectable clock/UUID sources. Bounded graphs (<=2 flows x <=3 nodes); other action kinds only via the fixture corpus.", ref="4 C01"),
+ "C02": dict(level=MC, technique="TLA+ model (Persist.tla: Engine + transient registers + Restart action) checked by TLC; TLC-generated histories with restart points replayed as live/restored twins; twin comparisons validated by TLC (PersistTrace.tla)",
+   text="Persist.tla adds the registers goflow keeps outside the persisted envelope and an independently enabled Restart action; TLC checks that every register is determined by persisted state wherever the engine reads it. The exported histories (every subset of waits as restart points) run on the real engine as twins - session object kept alive vs marshalled and re-read - with identical clock/UUID/random sources; events, segments and session JSON are compared per call and Marshal(Read(Marshal(s))) is checked; generated flows render the entire context, open tickets and call webhooks at every node. Runner fixtures are re-run under restart subsets the suite never uses.",
+   note="Trusted: byte comparison in Go; services are mocks; flows mentioning webhook/legacy_extra compared on structure only (allowed exceptions).", ref="4 C02"),
  "C05": dict(level=MC, technique="TLA+ model (Engine.tla: StepBound, ResumeBound, LimitFails, liveness Terminates under WF) + replay with watchdog + trace validation (EngineTrace.tla)",
    text="TLC proves within bounds that every sprint of the specification terminates (liveness, no state constraint), visits at most MaxSteps nodes and that at most MaxResumes resumes are accepted, for several option values; the exported behaviours are replayed on a real engine built with the same option values and the bounds are evaluated by TLC on every recorded call, together with fixtures run under small random limits.",
    note="Trusted: harness projection and watchdog; option values 1..5 / 0..3; text-length limits are covered by the Limits part of the check.", ref="4 C05"),
